@@ -499,7 +499,7 @@ def r5(ctx, R):
             R.bad(cm, rem[0], "registry removal is conditional")
         for st in dels:
             key = st.targets[0].slice
-            if norm(key) != "model.name":
+            if q.rnorm(cm, key) != "model.name":
                 R.bad(cm, st, "registry entry removed under a key other than model.name")
     R.inst("System.close_model resets currentmodel when it was the closed one")
     cw = [st for st, t in q.attr_writes(cm, attr="currentmodel")]
